@@ -69,14 +69,7 @@ def extreme_archive(r):
     return E.encode(f) + S.rand_bytes(r, 3)
 
 
-def mac_many(r):
-    out = b""
-    meth = r.choice([b"-lhx-", b"-lh7-", b"-lh5-"])
-    for i in range(r.choice([4, 8, 12])):
-        data = S.rand_bytes(r, 5)
-        f = E.Fields(level=1, method=meth, clen=len(data), length=r.choice([10, 100]), name=b"m%d" % i, os_type=0x6d, crc=0)
-        out += E.encode(f) + data
-    return out
+mac_many = A.mac_many
 
 
 def gen_cases(ctx, n):
@@ -104,7 +97,7 @@ def gen_cases(ctx, n):
         elif k < 0.55:
             d = mac_many(r)
             toks = []
-            for _ in range(14):
+            for _ in range(26):
                 toks += ["n", r.choice(["c", "x1", "r1000"])]
             add(d, toks, kind, "mac-many")
         elif k < 0.8:
